@@ -146,7 +146,7 @@ def backend_runs(r, quick):
 
 
 def run():
-    chk = Check("C19", props_modules=["GFO.Props.C19", "GFO.Props.LocalRuns", "GFO.Props.PopRuns", "GFO.Gen.TrackerGenCheck"], gen_steps=(translators.gen_tracker,))
+    chk = Check("C19", props_modules=["GFO.Props.C19", "GFO.Props.LocalRuns", "GFO.Props.PopRuns", "GFO.Props.EvoRuns", "GFO.Gen.TrackerGenCheck"], gen_steps=(translators.gen_tracker,))
     chk.build_and_audit()
     r = C.rng("C19")
     quick = C.tier() != "thorough"
